@@ -635,7 +635,58 @@ def gen_history(rng, stats, maxcalls=40, profile=None):
                 t.created = t.nocfg = False
                 t.invalidate("result"); t.invalidate("align")
 
-    if profile == "betweenutt":
+    def add_refusals():
+        """family: every refusal kind of decoder_add_word (duplicate word, duplicate alternate - added by the caller or already
+        in the dictionary file -, alternate without base, unknown phone, empty word / pronunciation, duplicate of an added word
+        and of its alternate) followed DIRECTLY by a grammar / FSG / alignment text that USES the words involved, then a decode"""
+        for _ in range(rng.range(1, 3)):
+            rk = rng.choice(["dup-word", "dup-alt", "dup-alt", "dup-alt-dict", "alt-no-base", "unknown-phone", "empty-word", "empty-pron",
+                             "dup-new", "dup-alt-of-new"])
+            upd = 1 if rng.chance(0.3) else 0
+            k = rng.below(4)
+            uses_fwd = [("jsgf go", "jsgf-ok"), ("jsgf move", "jsgf-ok"), ("jsgf star", "jsgf-ok"), ("fsg hand", "fsg-ok"), ("fsg file", "fsg-ok"),
+                        ("fsg loop", "fsg-ok"), ("aligntext go", "aligntext-ok"), ("aligntext ws", "aligntext-ok")]
+            nxt = rng.choice(uses_fwd)
+            if rk == "dup-word":
+                emit(f"addword known {rng.choice(['ok', 'one', 'long'])} {upd}", "addword")
+            elif rk == "dup-alt":
+                emit("addword alt ok 0", "addword")
+                emit(f"addword alt {rng.choice(['ok', 'one', 'long'])} {upd}", "addword")
+            elif rk == "dup-alt-dict":
+                emit(f"addword altdict {rng.choice(['ok', 'one'])} {upd}", "addword")
+                nxt = rng.choice([("jsgf hello", "jsgf-ok"), ("jsgf grp", "jsgf-ok"), ("aligntext hello", "aligntext-ok")])
+            elif rk == "alt-no-base":
+                emit(f"addword altmissing ok {upd}", "addword")
+            elif rk == "unknown-phone":
+                emit(f"addword {rng.choice(['altnew', 'alt', 'new%d' % k])} bad {upd}", "addword")
+            elif rk == "empty-word":
+                emit(f"addword empty ok {upd}", "addword")
+            elif rk == "empty-pron":
+                emit(f"addword {rng.choice(['altnew', 'known', 'new%d' % k])} {rng.choice(['empty', 'blank'])} {upd}", "addword")
+            elif rk == "dup-new":
+                emit(f"addword new{k} ok 0", "addword")
+                emit(f"addword new{k} {rng.choice(['ok', 'one'])} {upd}", "addword")
+                nxt = (f"jsgf usenew{k}", "jsgf-ok")
+            else:
+                emit(f"addword new{k} ok 0", "addword")
+                emit(f"addword altofnew{k} ok 0", "addword")
+                emit(f"addword altofnew{k} {rng.choice(['ok', 'one'])} {upd}", "addword")
+                nxt = (f"jsgf usenew{k}", "jsgf-ok")
+            if upd:
+                t.invalidate("result")
+            stats["blocks"]["addrefuse-" + rk] = stats["blocks"].get("addrefuse-" + rk, 0) + 1
+            emit(*nxt)
+            t.search = True
+            t.invalidate("result")
+            if rng.chance(0.8):
+                one_utterance(rng.choice([8000, 16000, GOLEN]), rng.choice(["full", "stream"]))
+                result_queries([q for q in ["hyp", "json 0", "seg"] if rng.chance(0.6)])
+
+    if profile == "addrefuse":
+        do_init(force_good=True)
+        add_refusals()
+        n = min(len(ops) + rng.range(1, 6), max(maxcalls, len(ops) + 1))
+    elif profile == "betweenutt":
         do_init(force_good=True)
         between_utterances()
         n = min(len(ops) + rng.range(2, 10), max(maxcalls, len(ops) + 2))
@@ -1899,7 +1950,7 @@ def truncate_at_oop(binp, ops, stats, max_rounds=4):
     return ops, rc, tr, err, div, classes
 
 
-TWIN_SKIP_KINDS = ("setGrammar",)
+TWIN_SKIP_KINDS = ("setGrammar", "addWord")   # refused grammar / alignment-text loads, refused decoder_add_word calls
 
 
 def refused_indices(tr, classes, nops):
@@ -2074,7 +2125,61 @@ def blk_probe_family(c, stats):
     return not bad
 
 
+def addword_refusal_kind(cw, earlier):
+    """refusal kind of a refused `addword <word> <phones> <update>` call, from its symbolic arguments and the words added before"""
+    wk, pk = cw[1], cw[2]
+    if pk in ("empty", "blank"):
+        return "empty-pronunciation"
+    if pk == "bad":
+        return "unknown-phone"
+    if wk == "empty":
+        return "empty-word"
+    if wk == "altmissing" or (wk.startswith("altofnew") and "new" + wk[8:] not in earlier):
+        return "alternate-without-base"
+    if wk in ("alt", "altdict", "altnew") or wk.startswith("altofnew"):
+        return "duplicate-alternate"
+    return "duplicate-word"
+
+
+def ret_ok(nx, calls, j, inst):
+    r = next((r2 for i2, c2, r2 in calls[j + 1:] if i2 == inst), "")
+    return r.startswith("ok")
+
+
+def account_addword_refusals(stats, tr):
+    """matrix (refusal kind of decoder_add_word) x (the NEXT call on that decoder; `uses-word` marks a grammar / FSG / alignment
+    text containing the base word or the word involved), over every cleanly replayed history"""
+    mat = stats.setdefault("addword_refusal_x_next_call", {})
+    added = [set(), set()]
+    calls = [(1 if c.startswith("@1 ") else 0, [x for x in c.split() if not x.startswith("@")], r) for c, r, _ in tr if r is not None and not r.startswith("skip")]
+    for j, (inst, cw, ret) in enumerate(calls):
+        if cw[0] in ("init", "initcfg", "reinit", "reinitcfg", "create", "free"):
+            added[inst] = set()
+        if cw[0] != "addword" or len(cw) < 4:
+            continue
+        if ret.startswith("n="):
+            added[inst].add(cw[1])
+            continue
+        rk = addword_refusal_kind(cw, added[inst])
+        nx = next((c2 for i2, c2, _ in calls[j + 1:] if i2 == inst), None)
+        if nx is None:
+            nk = "(end of history)"
+        else:
+            nk = nx[0]
+            base = {"known": "fwd", "alt": "fwd", "altnew": "fwd", "altdict": "hello"}.get(cw[1], cw[1][-1] if cw[1].startswith(("new", "altofnew")) else "")
+            uses = (nk == "jsgf" and (nx[1] in ("go", "move", "star", "opt", "plus", "long", "wide", "grp") and base == "fwd" or nx[1] in ("hello", "grp", "wide") and base == "hello"
+                                      or nx[1] == "usenew" + base)) or (nk == "fsg" and base == "fwd" and nx[1] != "oov") or \
+                   (nk == "aligntext" and (base == "fwd" and nx[1] in ("go", "ws") or base == "hello" and nx[1] == "hello")) or (nk == "jsgffile" and base == "fwd" and nx[1] == "good")
+            if cw[1] in ("altmissing", "empty"):      # no word of the dictionary is involved: any accepted grammar counts
+                uses = ret_ok(nx, calls, j, inst)
+            if nk in ("jsgf", "jsgffile", "fsg", "aligntext"):
+                nk = "grammar-load:" + ("uses-word" if uses else "other-words")
+        mat.setdefault(rk, {})
+        mat[rk][nk] = mat[rk].get(nk, 0) + 1
+
+
 def account_families(stats, tr):
+    account_addword_refusals(stats, tr)
     """what the between-utterances and block-crossing families really reached (measured on the transcript of a
     cleanly replayed history, per decoder instance): alignment requests REFUSED after decoder_reinit_feat (the
     ended utterance no longer fits the fresh feature buffer) and whether valid calls followed; utterances by
@@ -2235,6 +2340,14 @@ def check(c):
         hs.append(gen_history(root.fork(), stats, maxcalls=maxcalls))
         # lattice-heavy histories (and every fifth other one) run on the pass-through-pool flavour
         on_pool.append(stats["last_profile"] in ("lattice", "queries") or i % 5 == 0)
+    # family `addrefuse` (own random stream, appended: the other histories of a seed stay what they were): every refusal kind of
+    # decoder_add_word followed directly by a grammar / alignment text that uses the words involved, then a decode
+    root2 = vlib.Rng(((c.seed + 1) * 0x9E3779B97F4A7C15 + 0xADD0) & (2 ** 64 - 1))
+    n_main = len(hs)            # the twin replay takes the first `twin_max` histories with refused calls AND every history of this family
+    for i in range(14 if c.tier == "quick" else 300):
+        hs.append(gen_history(root2.fork(), stats, maxcalls=maxcalls, profile="addrefuse"))
+        on_pool.append(i % 5 == 0)
+    n = len(hs)
     if binp_pool is None:
         binp_pool = pin_harness(c.scratch, pool=True)
     stats["histories_on_passthrough_pool"] = sum(on_pool)
@@ -2279,7 +2392,7 @@ def check(c):
                         stats["returns"][key] = stats["returns"].get(key, 0) + 1
                 account_api(stats, tr, classes)
                 account_families(stats, tr)
-                if len(twins) < twin_max and refused_indices(tr, classes, len(hs[i]))[0]:
+                if (len(twins) < twin_max or i >= n_main) and refused_indices(tr, classes, len(hs[i]))[0]:
                     twins.append((i, tr, classes))
             elif div and div[0][0].startswith("out-of-protocol"):
                 # still out-of-protocol after cutting several times: dropped, counted, no alarm
@@ -2375,6 +2488,14 @@ def check(c):
                  for k in NEXT_KINDS if k != "hypNext"), nx)
     c.cov.update({"iterator_next_calls_predicted_vs_echoed": nx})
     c.cov.update({"error_recovery_twin_runs": stats.get("twin", {})})
+    arm = stats.get("addword_refusal_x_next_call", {})
+    c.cov.update({"addword_refusal_kind_x_next_call_on_that_decoder": arm})
+    c.oblige("add-word refusal family (also corpus/C09/addword-refused-then-grammar-using-the-word.ops): every refusal kind of decoder_add_word "
+             "(duplicate word, duplicate alternate, alternate without base, unknown phone, empty word, empty pronunciation) was followed DIRECTLY "
+             "by a grammar / FSG / alignment text that uses the words involved, at least once, on a cleanly replayed history",
+             all(arm.get(k, {}).get("grammar-load:uses-word", 0) > 0 for k in ("duplicate-word", "duplicate-alternate", "alternate-without-base",
+                                                                               "unknown-phone", "empty-word", "empty-pronunciation")),
+             {k: v.get("grammar-load:uses-word", 0) for k, v in arm.items()})
     nontrivial = sum(1 for h in hs if any(l.startswith("proc") for l in h))
     c.cov.update({"evaluations": n + ncorp, "distinct_nontrivial": len(distinct),
                   "rule": "random call histories (6-%d calls) over one decoder; distinct = distinct call lists; every history "
